@@ -95,11 +95,21 @@ def native_compare(skel, variant="default", what="expected", seed=7, batch=None)
         if what == "expected":
             got = np.asarray(model.expected_actualdata(rows if batch else rows[0]))
             got = got if batch else got[None, :]
+            full = np.asarray(model.expected_data(rows if batch else rows[0]))
+            full = full if batch else full[None, :]
             for a, th in enumerate(rows):
                 want = O.expected_main(O.FOps, spec, lay, th, **clip)
                 for g, (x, y) in enumerate(zip(got[a], want)):
                     if abs(x - y) > 1e-8 * max(1.0, abs(y)):
                         bad.append({"row": a, "bin": g, "theta": th, "got": float(x), "oracle": float(y)})
+                if not clip:
+                    wfull = want + O.expected_aux(O.FOps, spec, lay, th)
+                    if len(full[a]) != len(wfull):
+                        bad.append({"row": a, "what": "expected_data length", "got": len(full[a]), "oracle": len(wfull)})
+                    else:
+                        for g, (x, y) in enumerate(zip(full[a], wfull)):
+                            if abs(x - y) > 1e-8 * max(1.0, abs(y)):
+                                bad.append({"row": a, "what": "expected_data (main then auxiliary part)", "position": g, "theta": th, "got": float(x), "oracle": float(y)})
         else:
             got = np.asarray(model.logpdf(rows if batch else rows[0], datas if batch else datas[0])).reshape(-1)
             for a, (th, d) in enumerate(zip(rows, datas)):
